@@ -171,7 +171,7 @@ class _Stop(Exception):
 
 def run(tier="quick", seed=0):
     r = common.run("bounded.C03", cases(tier, seed), bound="<=3 ballots x 3 candidates, tally<=7 (quick); <=5 ballots x 4 candidates random (thorough)",
-                   rule=RULE, budget_s=150 if tier == "quick" else 1200)
+                   rule=RULE, budget_s=600 if tier == "quick" else 1200)
     # conservation across whole STV counts: the round-by-round audit of C02 (tallies of every round are recomputed from
     # the ballots the documented step produces, so created / lost weight shows as a tally mismatch)
     from . import C02
